@@ -238,3 +238,25 @@ def r_cast(ctx, P, only=None, floor=25):
                       ok or why is not None, function=p, site=site(b, i), bound=u if ok else None, reviewed=why,
                       missing=None if (ok or why) else '%s -> %s, operand bound %s: a larger value is cut to its low %d bits silently' % (src, dst, 'unknown' if u is None else u, WIDTH[dst]))
     ctx.floor(P + ':cast:floor', 'narrowing integer casts analysed', n, floor)
+
+
+def narrow_sums(ctx, P):
+    """`iter.sum::<u32>()` adds with overflow checks in builds that have them: summing input-sized data into a type narrower than
+    usize panics for a large enough input (16 MiB of 0xff octets overflow a u32).  Sums into narrow integer types must be wrapping /
+    checked explicitly; sums of in-memory lengths into usize are bounded by the address space."""
+    n = 0
+    for p, r in sorted(ctx.f.bodies.items()):
+        if r.get('derived') or '::tests::' in p:
+            continue
+        b = ctx.wrap(r)
+        cs = b.calls(r'Iterator::(sum|product)$')
+        if not cs:
+            ctx.functions.discard(p)
+            continue
+        for k, (i, t) in enumerate(cs):
+            n += 1
+            ty = t.get('rty') or ''
+            ok = ty in ('usize', 'u64', 'u128', 'f32', 'f64') or ty not in WIDTH
+            ctx.check('%s:narrow-sum:%s#%d' % (P, p, k + 1), 'R-panic', 'no overflow-checked Iterator::sum / product into an integer type narrower than usize in %s' % p.split('::')[-1],
+                      ok, function=p, site=site(b, i), missing=None if ok else 'sum::<%s>() over input-sized data: overflows (panics with overflow checks) for large inputs; fold with wrapping_add or reduce per step' % ty)
+    ctx.floor(P + ':narrow-sum:floor', 'Iterator::sum / product calls examined', n, 2)
